@@ -387,7 +387,10 @@ def jsonio_digest(obj):
 
 
 MANIFEST = {
-    'text': ('Model-based generation of run histories (run / fail / recover / lose persisted file / add task) '
+    'text': ('Insertion order of the tasks is generated; 3-task histories (lose any subset of files, break one '
+             'task) are enumerated over insertion orders x {master-first, worker-first} x {1, 2 workers}, and '
+             'all schedules of the second run with <= 1 (quick) / <= 2 (thorough, two chains) pre-emptions. '
+             'Model-based generation of run histories (run / fail / recover / lose persisted file / add task) '
              'executed through the real read_env -> Scheduler.schedule -> write_env sequence with real files, '
              'the back-end running under the controlled scheduler with a logical clock; after every run the '
              'clock/status invariant (a) and the no-needless-re-execution clause (b) are evaluated against '
